@@ -94,6 +94,12 @@ func c04Writes() []c04Write {
 	for _, id := range ids {
 		ws = append(ws, c04Write{fs: filterSpec{del: true, delSel: id, delElements: true, delSub: true}})
 	}
+	// a delete filter that names neither selectors nor elements: alone, with an identifier-less item, next to a partial selector
+	// (data items next to a delete filter alone, without a partial filter, are not a defined shape)
+	ws = append(ws, c04Write{fs: filterSpec{del: true}}, c04Write{items: []itemSpec{{pay: "2-"}}, fs: filterSpec{del: true, partial: true}})
+	for _, id := range ids {
+		ws = append(ws, c04Write{items: []itemSpec{{pay: "2-"}}, fs: filterSpec{del: true, partial: true, partialSel: id}})
+	}
 	// one write with a delete selector and a partial selector (the two may address different elements)
 	for _, ij := range [][2]int{{1, 2}, {2, 1}, {2, 3}, {3, 1}, {1, 1}} {
 		ws = append(ws, c04Write{items: []itemSpec{{pay: "2-"}}, fs: filterSpec{del: true, delSel: ij[0], partial: true, partialSel: ij[1]}},
@@ -216,7 +222,9 @@ func c04Families(thorough bool) []*engine.IFamily {
 							addr[id] = true
 						}
 					default:
-						if w.fs.del {
+						// (a delete filter that names neither selectors nor elements addresses nothing: the update engine
+						// ignores it, C02's fold says the same)
+						if w.fs.del && (w.fs.delSel > 0 || w.fs.delSelPay || w.fs.delElements) {
 							if w.fs.delSel > 0 {
 								addr[w.fs.delSel] = true
 							} else {
